@@ -135,6 +135,8 @@ pub fn run(rng: &mut Rng, n: usize, rep: &mut Report) {
             let (l_a0, l_l0, _, _) = pos_amounts(&s, &liquidator, &lb.bank);
             let lv0 = s.w.token_amount(&lb.liquidity_vault);
             let fee_i0 = bits(s.w.bank(&lb.bank).collected_insurance_fees_outstanding);
+            let (sl_a0, sl_l0) = (crate::scen::slack_of(&s.w, &ab), crate::scen::slack_of(&s.w, &lb));
+            let (bka0, bkl0) = (s.w.bank(&ab.bank), s.w.bank(&lb.bank));
             let ixn = ix::liquidate(
                 &ab, &lb, liquidator, s.users[1].wallet, victim, seize,
                 s.w.oracle_metas_for(&ab.bank), s.w.oracle_metas_for(&lb.bank),
@@ -232,6 +234,15 @@ pub fn run(rng: &mut Rng, n: usize, rep: &mut Report) {
                     if let Some(h) = health(&s.w, &liquidator) {
                         if h.init < 0 {
                             rep.fail(format!("C05 the liquidator ends initially unhealthy ({}): {}", h.init, tag));
+                        }
+                    }
+                    // C01: in each bank the solvency margin falls by less than asv + lsv + 1 (theorems decrease_step,
+                    // increase_step, liquidation_fee_step); both banks were accrued just before
+                    for (name, h, s0, b0) in [("collateral", &ab, &sl_a0, &bka0), ("debt", &lb, &sl_l0, &bkl0)] {
+                        let s1 = crate::scen::slack_of(&s.w, h);
+                        let allow = big(bits(b0.asset_share_value)) + big(bits(b0.liability_share_value)) + big(1);
+                        if &s1 + &allow <= *s0 {
+                            rep.fail(format!("C01 solvency margin of the {} bank fell by {} in a liquidation (allowance {}): {}", name, s0 - &s1, allow, tag));
                         }
                     }
                     if seize == dep_tokens { rep.bump("full_seizure_ok"); }
